@@ -75,6 +75,7 @@ CORPUS = [
         'accepted = (torch.rand(1) < acceptance_prob).item()', benign=True),
     Mut('c15-nan-density-not-rejected', 'torchtree/inference/mcmc/mcmc.py', '', "                if torch.isnan(log_joint_proposed) or torch.isinf(log_joint_proposed):", "                if torch.isinf(log_joint_proposed):", expect=[('C15.L', 'MCMC.run::nan-density-guard')], mode='text'),
     Mut('c15-benign-not-isfinite-guard', 'torchtree/inference/mcmc/mcmc.py', '', "                if torch.isnan(log_joint_proposed) or torch.isinf(log_joint_proposed):", "                if not torch.isfinite(log_joint_proposed):", benign=True, mode='text'),
+    Mut('c15-nan-hastings-not-rejected', 'torchtree/inference/mcmc/mcmc.py', '', "            if torch.isinf(hastings_ratio) or torch.isnan(hastings_ratio):", "            if torch.isinf(hastings_ratio):", expect=[('C15.L', 'MCMC.run::nan-hastings-guard')], mode='text'),
 ]
 for m in CORPUS:
     if m.id == 'c15-joint-before-step':
